@@ -171,6 +171,7 @@ type evNode struct {
 	parkCh   chan struct{}
 	unpark   bool // a held poll has been released and not yet served
 	ended    bool
+	stalled  bool // a Stall line was recorded in this scenario
 	// re-observation step: request 0 is the scripted one, request 1 the sentinel (transaction "tS": one deep
 	// message of the core contract in block 1, mined by the harness at the start of every scenario).  Whatever
 	// calls the handler makes and in whatever order, a request is over when the next one is accepted, and the
@@ -862,7 +863,7 @@ func (r *evRun) waitFor(cond func() bool) bool {
 			}
 			return true
 		}
-		if time.Since(t0) > evDeadline {
+		if time.Since(t0) > evCurDeadline() {
 			return false
 		}
 		if i < 50 {
@@ -873,7 +874,23 @@ func (r *evRun) waitFor(cond func() bool) bool {
 	}
 }
 
+// Fail fast.  The first stall of a run is waited for with the full deadline (>= 1000x the nominal latency).  Once
+// one is on record the verdict of the run no longer depends on later waits, so they get a short deadline (still
+// three orders of magnitude above the nominal latency of ~1 ms), and after evStallCap stalls / harness timeouts no
+// further history is started: the check ends quickly with the stalls it has recorded.
+const (
+	evShortDeadline = 2 * time.Second
+	evStallCap      = 3
+)
+
 var evStalls int32
+
+func evCurDeadline() time.Duration {
+	if atomic.LoadInt32(&evStalls) > 0 {
+		return evShortDeadline
+	}
+	return evDeadline
+}
 
 func (r *evRun) line(ev string, a map[string]interface{}, s map[string]interface{}) {
 	if ev == "Stall" || ev == "Timeout" {
@@ -881,6 +898,9 @@ func (r *evRun) line(ev string, a map[string]interface{}, s map[string]interface
 	}
 	r.n.mu.Lock()
 	r.n.drain()
+	if ev == "Stall" {
+		r.n.stalled = true
+	}
 	r.n.emit(ev, a, s)
 	r.n.mu.Unlock()
 }
@@ -1045,7 +1065,7 @@ func (r *evRun) reobserve(st evStep) bool {
 		h := evHash("tx|", n.sc, "|", name)
 		select {
 		case r.reqC <- &gossipv1.ObservationRequest{ChainId: uint32(n.chainID), TxHash: h[:]}:
-		case <-time.After(evDeadline):
+		case <-time.After(evCurDeadline()):
 			r.line("Stall", map[string]interface{}{"what": "reobservation-not-taken"}, nil)
 			res = false
 		}
@@ -1197,7 +1217,9 @@ func evRunScenario(t *testing.T, tr *vhTrace, sc evScenario) {
 	}
 	n.mu.Lock()
 	n.drain()
-	if n.slow {
+	if n.slow && !n.stalled {
+		// completed, but some wait was long enough to come near the code's own timeouts: not judged.
+		// (A history in which the watcher stalled is judged: the long wait IS the observation.)
 		n.emit("Slow", nil, nil)
 	}
 	if n.broken != "" {
@@ -1230,7 +1252,7 @@ func TestVerifEvmReplay(t *testing.T) {
 	ran := 0
 	for _, sc := range scs {
 		// every stall costs the full deadline: after a few of them the verdict is clear, do not wait for hours
-		if atomic.LoadInt32(&evStalls) >= 4 {
+		if atomic.LoadInt32(&evStalls) >= evStallCap {
 			break
 		}
 		evRunScenario(t, tr, sc)
